@@ -1355,6 +1355,13 @@ p_socket_close (PSocket	*socket,
 	} else {
 		err_code = p_error_get_last_net ();
 
+		/* The descriptor is gone (or was never valid) after any close()
+		 * attempt, it must not be closed a second time */
+		socket->connected = FALSE;
+		socket->closed    = TRUE;
+		socket->listening = FALSE;
+		socket->fd        = -1;
+
 		p_error_set_error_p (error,
 				     (pint) p_error_get_io_from_system (err_code),
 				     err_code,
